@@ -15,6 +15,13 @@ def connKindOfCode (domain : Nat) : Nat → Option ConnKind
   | 1 => some .plainRW
   | 2 => some .stateMethod
   | 3 => some (.tlsConn (.dom domain))
+  -- WebSocket framing: on a net.Conn, on a plain io.ReadWriter, on a client `*websocket.Conn`
+  -- opened for a `ws:` location by an `http:` / `https:` origin
+  | 4 => some (.wsRaw true)
+  | 5 => some (.wsRaw false)
+  | 6 => some (.wsConn true .http .ws)
+  | 7 => some (.wsConn true .https .ws)
+  | 8 => some (.wsConn true .wss .ws)
   | _ => none
 
 /-- what the harness observes of a trace: the writes and the ClientHello names -/
@@ -33,6 +40,27 @@ def startStateDomain : List (Nat × Nat) := product [0, 1, 2, 3] [0, 1, 2, 64]
 def startStateModel (i : Nat × Nat) : Option Nat :=
   (connKindOfCode 0 i.1).map fun c => (init ⟨0, 0, none, c⟩ (BitVec.ofNat 8 i.2) ⟨[], [], []⟩).state.toNat
 
+/-! ### websocket/ws.go: the state a session created by `websocket.NewSession` starts with -/
+
+def schemeOfCode : Nat → Option Scheme
+  | 0 => some .http | 1 => some .https | 2 => some .ws | 3 => some .wss | _ => none
+
+/-- (carrier: 0 `net.Conn` / 1 plain `io.ReadWriter` / 2 client `*websocket.Conn`, scheme of its
+origin URL, scheme of its location URL) -/
+def wsStartDomain : List (Nat × Nat × Nat) :=
+  [(0, 0, 0), (1, 0, 0)] ++ (product [0, 1, 2, 3] [2, 3]).map fun p => (2, p.1, p.2)
+
+def wsCarrier (i : Nat × Nat × Nat) : Option ConnKind :=
+  match i.1 with
+  | 0 => some (.wsRaw true)
+  | 1 => some (.wsRaw false)
+  | 2 => do pure (.wsConn true (← schemeOfCode i.2.1) (← schemeOfCode i.2.2))
+  | _ => none
+
+/-- `websocket.NewSession` up to the first negotiator call -/
+def wsStartModel (i : Nat × Nat × Nat) : Option Nat :=
+  (wsCarrier i).map fun c => (init ⟨0, 0, none, c⟩ 0 ⟨[], [], []⟩).state.toNat
+
 /-! ### negotiator.go / features.go: the first features list, with and without the tee -/
 
 def firstListShapes : List (List Item) :=
@@ -40,7 +68,7 @@ def firstListShapes : List (List Item) :=
 
 /-- (tee variant, clear connection kind, first features list, the peer says proceed?) -/
 def firstListDomain : List (Nat × Nat × List Item × Bool) :=
-  (product [0, 1, 2, 3] (product [0, 1, 2] (product firstListShapes [false, true])))
+  (product [0, 1, 2, 3] (product [0, 1, 2, 4, 5, 6, 7, 8] (product firstListShapes [false, true])))
 
 /-- a whole `NewSession` with only STARTTLS configured: header, the list, then either silence or
 `<proceed/>` followed, inside TLS, by a header and an empty list -/
@@ -83,10 +111,11 @@ def negotiateModel (i : Bool × Option Unit) : List Ev × NegObs :=
 def sniUniverse : List SniSess :=
   [⟨0, 1, false, .p⟩, ⟨1, 0, false, .p⟩, ⟨1, 1, true, .x⟩, ⟨2, 0, false, .f⟩, ⟨0, 2, false, .n⟩]
 
-/-- every history of one or two sessions of the universe, with the default and with an explicit
-configuration -/
+/-- every history of one, two or three sessions of the universe (so also A,B,A and A,A,B), with the
+default and with an explicit configuration -/
 def serverNameDomain : List (Bool × List SniSess) :=
-  product [false, true] (sniUniverse.flatMap fun a => [a] :: sniUniverse.map fun b => [a, b])
+  product [false, true] (sniUniverse.flatMap fun a =>
+    [a] :: sniUniverse.flatMap fun b => [a, b] :: sniUniverse.map fun c => [a, b, c])
 
 def serverNameModel (i : Bool × List SniSess) : List (Option Name) :=
   sessions (if i.1 then some .explicit else none) i.2
